@@ -1,6 +1,7 @@
 """C18 - results are reproducible, instances isolated, caller arrays never modified."""
 import os
 import sys
+import math
 import json
 import copy
 import pickle
@@ -191,17 +192,51 @@ def check_seeded(ctx):
     if not all_close(a['kmeans'], b['kmeans'], rel=1e-9):
         ctx.violation('not-reproducible', 'seeded k-means edges differ between two processes: %r vs %r' % (
             a['kmeans'], b['kmeans']), case, signature=dict(kind='not-reproducible', what='kmeans'))
-    if a['sampled'] != b['sampled']:
+    if repr(a['sampled']) != repr(b['sampled']):
         ctx.violation('not-reproducible', 'seeded pair sampling differs between two processes', case,
                       signature=dict(kind='not-reproducible', what='sampled'))
-    if a['jackknife'] != b['jackknife']:
+    if a['jackknife'] != b['jackknife'] and not (math.isnan(a['jackknife']) and math.isnan(b['jackknife'])):
         ctx.violation('not-reproducible', 'seeded jackknife differs between two processes: %r vs %r' % (
             a['jackknife'], b['jackknife']), case, signature=dict(kind='not-reproducible', what='jackknife'))
+
+
+def check_seeded_inprocess(ctx):
+    """seeded pair sampling / k-means / jackknife subsets: two constructions in one process agree, for
+    several seeds including 0"""
+    rng = ctx.rng
+    coords = gen_coords(rng, int(rng.integers(20, 40)), dim=2, kind='uniform')
+    values = gen_values(rng, coords, 'field')
+    for seed in (0, 1, int(rng.integers(2, 10 ** 6))):
+        case = dict(coords=coords.tolist(), values=values.tolist(), seeded=True, seed=seed)
+        res = []
+        for rep in range(2):
+            np.random.seed(int(rng.integers(0, 2 ** 31)))      # the global stream must not matter
+            with quiet():
+                V = Variogram(coords.copy(), values.copy(), samples=0.6, binning_random_state=seed, n_lags=4)
+                W = Variogram(coords.copy(), values.copy(), bin_func='kmeans', binning_random_state=seed, n_lags=4)
+                U = Variogram(coords.copy(), values.copy(), n_lags=5, maxlag='median')
+                res.append((np.asarray(V.bins).tolist(), np.asarray(V.experimental).tolist(), np.asarray(V.bin_count).tolist(),
+                            np.asarray(W.bins).tolist(), float(U.cross_validate(n=6, seed=seed))))
+        ctx.case(signature=('seeded-inprocess', seed), stream='determinism', sample=dict(op='seeded repeat', seed=seed))
+        ctx.count('op:seeded-repeat')
+        a, b = res
+        if repr(a[:3]) != repr(b[:3]):
+            ctx.violation('not-reproducible', 'pair sampling with binning_random_state=%r differs between two '
+                          'constructions: counts %r vs %r' % (seed, a[2], b[2]), case,
+                          signature=dict(kind='not-reproducible', what='sampled', seed_zero=seed == 0))
+        if not all_close(a[3], b[3], rel=1e-9):
+            ctx.violation('not-reproducible', 'seeded k-means (%r) differs between two constructions' % seed, case,
+                          signature=dict(kind='not-reproducible', what='kmeans'))
+        if a[4] != b[4] and not (math.isnan(a[4]) and math.isnan(b[4])):
+            ctx.violation('not-reproducible', 'seeded jackknife (%r) differs between two calls' % seed, case,
+                          signature=dict(kind='not-reproducible', what='jackknife'))
 
 
 def run(ctx):
     for k in range(ctx.n(25, 250)):
         check_case(ctx, gen(ctx))
+    for k in range(ctx.n(2, 10)):
+        check_seeded_inprocess(ctx)
     for k in range(ctx.n(1, 4)):
         check_seeded(ctx)
     ctx.lean.flush()
